@@ -32,6 +32,7 @@ class KeyGen:
         if rng.random() < 0.5:
             self.prefixes.append(b"\x00" * 8)
         self.long_tail = long_tail
+        self.dense0 = False
 
     def suffix_len(self):
         r = self.rng.random()
@@ -47,8 +48,18 @@ class KeyGen:
             return self.rng.choice([255, 256, 257, 300])
         return self.rng.choice([23, 24, 25])
 
+    def dense0_key(self):
+        """short keys in layer 0: 1-3 bytes over a medium alphabet, with many prefix / zero-padding relations
+        ("I", "Ia", "I\\0") -- drives interior splits and separator comparisons with different lengths"""
+        rng = self.rng
+        alph = [0x00, 0x01, 0x20, 0x41, 0x49, 0x61, 0x62, 0x7a, 0x80, 0xfe, 0xff] + list(range(0x30, 0x3a))
+        n = rng.choice([1, 1, 2, 2, 2, 3, 3, 4])
+        return bytes(rng.choice(alph) for _ in range(n))
+
     def key(self, dense=False):
         rng = self.rng
+        if self.dense0:
+            return self.dense0_key()
         p = rng.choice(self.prefixes) if rng.random() < 0.5 else b""
         n = self.suffix_len()
         if dense:
@@ -66,6 +77,10 @@ def gen_script(rng, tier, n_keys=None, storages=1, scans=True, dumps=True, inlin
     kg = KeyGen(rng, long_tail=(tier == "thorough"))
     if n_keys is None:
         n_keys = rng.choice([5, 14, 16, 17, 40, 130, 260] if tier == "quick" else [16, 40, 130, 300, 1200, 2500])
+        if rng.random() < 0.3:
+            # one dense layer: many borders under interior nodes that split
+            kg.dense0 = True
+            n_keys = rng.choice([150, 300, 450] if tier == "quick" else [300, 600, 1500])
     names = [b"s"] if storages == 1 else [b"s", b"", b"s\x00", b"storage-long-name-1", b"storage-long-name-2"][:storages]
     ops = ["init", "enter"]
     for nm in names:
@@ -79,7 +94,33 @@ def gen_script(rng, tier, n_keys=None, storages=1, scans=True, dumps=True, inlin
             seen.add(k)
             pool.append(k)
     order = rng.choice(["asc", "desc", "shuffle"])
-    if order == "asc":
+    if kg.dense0 and rng.random() < 0.5:
+        # grid mode: a two-byte grid (many equally long keys -> many borders, full interior nodes), then keys that
+        # are proper prefixes / zero-extensions of grid keys (separators that differ from the pivots only in length)
+        nl = rng.choice([17, 17, 20, 34])
+        l1 = [0x41 + i for i in range(nl)]
+        l2 = [0x61 + i for i in range(8)]
+        grid = [bytes([a, b]) for a in l1 for b in l2]
+        exact = rng.random() < 0.6
+        if exact:
+            grid = grid[:135]        # ascending: 16 borders of 8 (last 15) under ONE full interior node (15 separators)
+        elif rng.random() < 0.5:
+            rng.shuffle(grid)
+        # then batches of keys that are proper prefixes / short extensions of grid keys: each batch overflows one
+        # border, the new separator differs from its neighbours (and from the interior's pivot) only in length
+        letters = l1[1:16]
+        rng.shuffle(letters)
+        if exact and rng.random() < 0.7:
+            letters.remove(0x49)
+            letters.insert(0, 0x49)      # the batch under the middle separator first: the interior split compares it with the pivot
+        extra = []
+        for a in letters[:rng.choice([1, 3, 8, 15])]:
+            extra += [bytes([a])] + [bytes([a, c]) for c in range(1, 8)] + ([bytes([a, 0x61, 0])] if rng.random() < 0.3 else [])
+        pool = grid + extra
+        order = "keep"
+    if order == "keep":
+        pass
+    elif order == "asc":
         pool.sort()
     elif order == "desc":
         pool.sort(reverse=True)
@@ -121,12 +162,13 @@ def gen_script(rng, tier, n_keys=None, storages=1, scans=True, dumps=True, inlin
                 return k[:rng.randrange(len(k) + 1)]
             if m < 0.6:
                 return k + bytes([rng.choice([0x00, 0xff])])
-            if m < 0.7 and len(k) >= 8:
+            if m < 0.67 and len(k) >= 8:
                 return k[:8 * (len(k) // 8)]
-            if m < 0.8:
+            if m < 0.74:
                 return k[:-1] + bytes([(k[-1] + 1) & 0xff]) if k else b"\0"
-            if m < 0.85:
-                return k + b"\x61" * rng.choice([248, 256, 260])
+            if m < 0.86:
+                pad = rng.choice([256, 257, 264, 512, 248, 260]) - len(k)
+                return k + bytes([rng.choice([0x00, 0x61, 0xff])]) * max(pad, 1)
             return k[:max(0, len(k) - 1)]
         return kg.key()
 
@@ -251,6 +293,14 @@ def gen_script(rng, tier, n_keys=None, storages=1, scans=True, dumps=True, inlin
         if dumps:
             ops.append("dump " + hx(nm))
             ops.append("mem " + hx(nm))
+    # final audit: every key the script believes stored must be readable, and one full scan per storage
+    for nm in names:
+        ks = sorted(live[nm])
+        if len(ks) > 400:
+            ks = rng.sample(ks, 400)
+        for k in ks:
+            ops.append("get %s %s" % (hx(nm), hx(k)))
+        ops.append("scan %s - INF - INF 0 0" % hx(nm))
     if with_storage_ops:
         ops.append("list")
         ops.append("find " + hx(b"nosuch"))
@@ -432,8 +482,8 @@ def compare(r, categories):
             if "mem" in categories and i < len(r.spec) and r.spec[i] is not None and a != r.spec[i]:
                 res["oracle"].append(i)
             continue
-        if kind == "fin":
-            continue
+        if kind in ("fin", "iopen", "inext", "iclose"):
+            continue       # cursor steps interleaved with writes: oracle only (see cursor_check)
         if "res" in categories and abstract(a) != abstract(b):
             res["res"].append(i)
         if "nv" in categories and nv_part(a) != nv_part(b):
@@ -636,3 +686,117 @@ def replay_seq(pid, tag, path, categories, extra_check=None):
             print("[check] %s: %s" % (rr.ops[i], why))
     print("replay: %s" % ("property violated / tie broken" if bad else "no difference"))
     return 1 if bad else 0
+
+
+# ------------------------------------------------------------------ cursor with interleaved writes (C10, second sentence)
+def gen_cursor_script(rng, tier):
+    """a cursor is opened, advanced a few steps, the tree is modified (inserts that split the node / the root of
+    the layer the cursor is in, removes of visited and unvisited keys), advanced again, ... until the end"""
+    kg = KeyGen(rng)
+    st = b"s"
+    ops = ["init", "enter", "create " + hx(st)]
+    live = {}
+    n = rng.choice([6, 18, 40])
+    prefix = rng.choice(kg.prefixes[1:]) if len(kg.prefixes) > 1 else b"prefix88"
+    while len(live) < n:
+        k = (prefix if rng.random() < 0.6 else b"") + bytes([rng.choice(ALPH + [0x62, 0x63, 0x64])] ) + bytes(rng.choice(ALPH) for _ in range(rng.choice([0, 1, 2])))
+        if k not in live:
+            live[k] = True
+            ops.append("put %s %s 76 1 0 0" % (hx(st), hx(k)))
+    rtl = int(rng.random() < 0.4)
+    early = int(rng.random() < 0.35)
+    ops.append("iopen %s - INF - INF %d %d" % (hx(st), rtl, early))
+    steps = 0
+    while steps < 3 * n:
+        for _ in range(rng.randrange(1, 5)):
+            ops.append("inext")
+            steps += 1
+        r = rng.random()
+        if r < 0.5:
+            # burst of inserts, often under the cursor's prefix (splits the layer the cursor is inside)
+            base = prefix if rng.random() < 0.7 else b""
+            for _ in range(rng.choice([1, 2, 5, 16])):
+                k = base + bytes(rng.choice([0x41, 0x42, 0x43, 0x30, 0x7a, 0x00, 0xff]) for _ in range(rng.choice([1, 2])))
+                ops.append("put %s %s 77 1 0 0" % (hx(st), hx(k)))
+                live[k] = True
+        elif r < 0.8 and live:
+            for _ in range(rng.choice([1, 2, 6])):
+                if live:
+                    k = rng.choice(sorted(live))
+                    ops.append("rem %s %s" % (hx(st), hx(k)))
+                    live.pop(k, None)
+    ops += ["iclose", "leave", "fin"]
+    return ops
+
+
+def cursor_check(r):
+    """oracle on the implementation's own outputs.  Returns list of (op index, why, known_pattern: bool)"""
+    bad = []
+    present = {}          # key -> True while stored
+    cur = None
+    for i, op in enumerate(r.ops):
+        t = op.split()
+        out = r.impl[i]
+        if t[0] == "put" and out.startswith("put OK"):
+            k = bytes.fromhex(t[2]) if t[2] != "-" else b""
+            present[k] = True
+            if cur:
+                cur["touched"].add(k)
+                cur["puts_since"].append(k)
+        elif t[0] == "rem" and out.startswith("rem OK") and "NOT_FOUND" not in out:
+            k = bytes.fromhex(t[2]) if t[2] != "-" else b""
+            present.pop(k, None)
+            if cur:
+                cur["touched"].add(k)
+        elif t[0] == "iopen":
+            cur = dict(rtl=t[6] == "1", early=t[7] == "1", returned=[], start=set(present), touched=set(),
+                       puts_since=[], ended=False, aborted=False)
+            m = re.search(r" k=(\S+)", out)
+            if m:
+                cur["returned"].append(bytes.fromhex(m.group(1)) if m.group(1) != "-" else b"")
+                cur["puts_since"] = []
+        elif t[0] == "inext" and cur and not cur["ended"]:
+            m = re.search(r" k=(\S+)", out)
+            exp_abort = " exp_abort=1" in out
+            if "WARN_CONCURRENT_OPERATIONS" in out:
+                cur["aborted"] = cur["ended"] = True
+                if not cur["early"]:
+                    bad.append((i, "cursor without early_abort returned WARN_CONCURRENT_OPERATIONS", False))
+                continue
+            if exp_abort:
+                bad.append((i, "early_abort cursor continued although the node under it was modified: " + out, False))
+            if m:
+                k = bytes.fromhex(m.group(1)) if m.group(1) != "-" else b""
+                prev = cur["returned"][-1] if cur["returned"] else None
+                if prev is not None and not ((k > prev) if not cur["rtl"] else (k < prev)):
+                    bad.append((i, "cursor not strictly monotone: %s after %s" % (k.hex(), prev.hex()), False))
+                if k not in cur["start"] and k not in cur["touched"]:
+                    bad.append((i, "cursor returned a key that was never stored during the iteration: " + k.hex(), False))
+                # keys present throughout, strictly between prev and k, must not be skipped
+                stable = [x for x in cur["start"] if x not in cur["touched"] and x in present]
+                lo, hi = (prev, k) if not cur["rtl"] else (k, prev)
+                skipped = [x for x in stable if (lo is None or x > lo) and (hi is None or x < hi)]
+                if skipped:
+                    known = (prev is not None and len(prev) > 8 and
+                             all(x[:8 * ((len(prev) - 1) // 8)] == prev[:8 * ((len(prev) - 1) // 8)] for x in skipped) and
+                             any(p[:8 * ((len(prev) - 1) // 8)] == prev[:8 * ((len(prev) - 1) // 8)] and len(p) > 8
+                                 for p in cur["puts_since"]))
+                    bad.append((i, "cursor skipped %d key(s) present throughout the iteration, e.g. %s (after %s)" % (
+                        len(skipped), skipped[0].hex(), prev.hex() if prev is not None else None), known))
+                cur["returned"].append(k)
+                cur["puts_since"] = []
+            elif "OK_SCAN_END" in out:
+                cur["ended"] = True
+                prev = cur["returned"][-1] if cur["returned"] else None
+                stable = [x for x in cur["start"] if x not in cur["touched"] and x in present]
+                skipped = [x for x in stable if prev is None or ((x > prev) if not cur["rtl"] else (x < prev))]
+                if skipped:
+                    known = (prev is not None and len(prev) > 8 and
+                             any(p[:8 * ((len(prev) - 1) // 8)] == prev[:8 * ((len(prev) - 1) // 8)] and len(p) > 8
+                                 for p in cur["puts_since"]) and
+                             all(x[:8 * ((len(prev) - 1) // 8)] == prev[:8 * ((len(prev) - 1) // 8)] for x in skipped))
+                    bad.append((i, "cursor ended while %d key(s) present throughout were not returned, e.g. %s" % (
+                        len(skipped), skipped[0].hex()), known))
+        elif t[0] == "iclose":
+            cur = None
+    return bad
